@@ -44,6 +44,8 @@ type Ctx struct {
 	Exhaustive  bool
 	Bound       string // human readable bound completed
 	Deadline    time.Time
+	// StopOnViolation makes Explore/BFS stop soon after the first unlisted violation.
+	StopOnViolation bool
 
 	ReplayPath string
 	ReplayData json.RawMessage
@@ -77,6 +79,7 @@ type Violation struct {
 	Replay    interface{} `json:"replay,omitempty"`
 	Tier      string      `json:"tier"`
 	Count     int64       `json:"count"`
+	rank      int
 }
 
 // KnownFinding is an entry of /verif/known_findings.json.
@@ -177,7 +180,12 @@ func (c *Ctx) Pick(q, t int) int {
 
 // Expired reports whether the internal exploration deadline passed. A harness that stops
 // because of it must call Cap.
-func (c *Ctx) Expired() bool { return time.Now().After(c.Deadline) }
+func (c *Ctx) Expired() bool {
+	if c.StopOnViolation && c.NumViolations() > 0 {
+		return true
+	}
+	return time.Now().After(c.Deadline)
+}
 
 // Cap records that a cap was hit: the run is no longer exhaustive.
 func (c *Ctx) Cap(what string) {
@@ -242,12 +250,22 @@ func (c *Ctx) Sample(v interface{}) {
 }
 
 // WantSample reports whether more samples are wanted (cheap pre-check).
-func (c *Ctx) WantSample() bool { c.mu.Lock(); defer c.mu.Unlock(); return len(c.samples) < c.sampleCap }
+func (c *Ctx) WantSample() bool {
+	c.mu.Lock()
+	defer c.mu.Unlock()
+	return len(c.samples) < c.sampleCap
+}
 
 // Violation records a violation. sig must be the narrowest signature the harness can
 // compute; violations are deduplicated by signature and matched against known findings.
 // replay is harness-specific data sufficient to re-run the single case.
 func (c *Ctx) Violation(sig string, detail interface{}, replay interface{}) {
+	c.ViolationR(sig, 0, detail, replay)
+}
+
+// ViolationR is Violation with a rank: per signature the witness with the lowest rank
+// (e.g. fewest preemptions, shortest input) is the one kept and reported.
+func (c *Ctx) ViolationR(sig string, rank int, detail interface{}, replay interface{}) {
 	c.mu.Lock()
 	defer c.mu.Unlock()
 	c.violTotal++
@@ -259,12 +277,15 @@ func (c *Ctx) Violation(sig string, detail interface{}, replay interface{}) {
 	}
 	if v, ok := c.viol[sig]; ok {
 		v.Count++
+		if rank < v.rank {
+			v.rank, v.Detail, v.Replay = rank, detail, replay
+		}
 		return
 	}
 	if len(c.viol) >= 40 {
 		return
 	}
-	c.viol[sig] = &Violation{Property: c.Prop, Signature: sig, Detail: detail, Replay: replay, Tier: c.Tier, Count: 1}
+	c.viol[sig] = &Violation{Property: c.Prop, Signature: sig, Detail: detail, Replay: replay, Tier: c.Tier, Count: 1, rank: rank}
 	c.violOrder = append(c.violOrder, sig)
 }
 
